@@ -261,15 +261,15 @@ def parseEdges (s : String) : Option (List Edge) :=
 
 def showCheckErr : CheckErr → String
   | .noOrigin => "no-origin" | .noChannels => "no-channels" | .noFrames => "no-frames"
-  | .channelNotRegistered => "channel-not-registered" | .fileIdMismatch => "file-id"
+  | .channelNotRegistered => "channel-not-registered" | .channelFrameCount => "channel-frame-count" | .fileIdMismatch => "file-id"
   | .foreignReference => "foreign-reference" | .sharedSet => "shared-set"
 
-def handleChk : List String → String
+def handleChk (hc : Bool) : List String → String
   | n :: c :: f :: fid :: es :: ops =>
     match n.toNat?, c.toNat?, f.toNat?, parseEdges es, ops.mapM parseOp with
     | some n, some c, some f, some es, some ops =>
       let bits := fid.toList
-      match acceptWrite (run (World.init n) ops) c f es (fun lf => bits.getD lf '1' == '1') with
+      match acceptWriteHc hc (run (World.init n) ops) c f es (fun lf => bits.getD lf '1' == '1') with
       | .ok _ => "ok"
       | .error e => "err " ++ showCheckErr e
     | _, _, _, _, _ => "bad"
@@ -553,7 +553,8 @@ def handle (ws : List String) : String :=
   | "dsn" :: rest => handleDsn rest
   | ["hcstr", s] => match parseCps s with
     | some s => if hcString s then "1" else "0" | none => "bad"
-  | "chk" :: rest => handleChk rest
+  | "chk" :: rest => handleChk false rest
+  | "chkhc" :: rest => handleChk true rest
   | ["castf", w, vs] =>
     match (vs.splitOn ",").mapM String.toInt? with
     | some vs => "ok " ++ ",".intercalate (vs.map fun v =>
